@@ -12,6 +12,7 @@ use crate::Cfg;
 use ndarray::{
     Array, Array1, ArrayD, ArrayViewMut, Axis, Dimension, Ix0, Ix1, Ix2, Ix3, Ix4, Ix5, IxDyn, ShapeBuilder, Slice,
 };
+use ndarray_interp::interp1d::cubic_spline::{BoundaryCondition, CubicSpline};
 use ndarray_interp::interp1d::{Interp1DBuilder, Linear};
 use ndarray_interp::interp2d::{Bilinear, Interp2DBuilder};
 use ndarray_interp::InterpolateError;
@@ -142,7 +143,7 @@ fn call_into<E: Elem>(sc: &Scen1, qshape: &[usize], dyn_query: bool, spec: &BufS
     let mut alloc: Vec<E> = (0..spec.alloc_len()).map(|a| E::of_f64(poison_val(a))).collect();
     let data = make_data::<E>(&sc.rows, &sc.trail);
     let x = Array1::from(sc.axis_vals().iter().map(|&v| E::of_f64(v)).collect::<Vec<_>>());
-    let interp = Interp1DBuilder::new(data).x(x).strategy(Linear::new().extrapolate(sc.ext)).build().unwrap();
+    let interp = Interp1DBuilder::new(data).x(x).strategy(crate::scen::configure_linear(sc.ext)).build().unwrap();
     let qflat: Vec<E> = sc.queries.iter().map(|&q| E::of_f64(q)).collect();
     let (off, strides, res);
     {
@@ -276,7 +277,7 @@ pub fn run(cfg: &Cfg, prop: &str) {
         if rref == CallOut::Ok {
             let data = make_data::<f64>(&sc.rows, &sc.trail);
             let x = Array1::from(sc.axis_vals());
-            let interp = Interp1DBuilder::new(data).x(x).strategy(Linear::new().extrapolate(sc.ext)).build().unwrap();
+            let interp = Interp1DBuilder::new(data).x(x).strategy(crate::scen::configure_linear(sc.ext)).build().unwrap();
             let qd = ArrayD::from_shape_vec(IxDyn(&qshape), sc.queries.clone()).unwrap();
             let arr = interp.interp_array(&qd).unwrap();
             rep.evaluations += 1;
@@ -307,7 +308,7 @@ pub fn run(cfg: &Cfg, prop: &str) {
             if sc.trail.is_empty() {
                 // interp_scalar on 1-D data
                 let d1 = Array1::from(sc.rows.iter().map(|r| r[0]).collect::<Vec<_>>());
-                let i1 = Interp1DBuilder::new(d1).x(Array1::from(sc.axis_vals())).strategy(Linear::new().extrapolate(sc.ext)).build().unwrap();
+                let i1 = Interp1DBuilder::new(d1).x(Array1::from(sc.axis_vals())).strategy(crate::scen::configure_linear(sc.ext)).build().unwrap();
                 for (qi, &q) in sc.queries.iter().enumerate() {
                     let a = i1.interp_scalar(q).unwrap();
                     rep.evaluations += 1;
@@ -414,6 +415,7 @@ pub fn run(cfg: &Cfg, prop: &str) {
     two_d(&mut rep, &mut rng, if thorough { 600 } else { 60 });
     input_layouts(&mut rep, &mut rng, if thorough { 600 } else { 80 });
     query_layouts(&mut rep, &mut rng, if thorough { 400 } else { 60 });
+    strategy_layouts(&mut rep, &mut rng, if thorough { 300 } else { 40 });
     rep.finish("random 1-D interpolators (data rank 1-3 incl. zero-length trailing axes) x query arrays of rank 0-3 (static Ix0..Ix3 and dynamic, incl. zero-length axes, optionally one out-of-range element) x buffers that are views into a larger poisoned allocation: owned C, F-order, strided windows, reversed axes, permuted axes and combinations; wrong shapes: every axis +-1, trailing / leading permutations, rank +-1; whole allocation dumped after each call; exact run compared with the model's memory image in Coq; all static (data dim, query dim) pairs incl. rank > 6 for the allocating variants; 2-D interpolator; layouts of data / axes / queries");
 }
 
@@ -478,8 +480,8 @@ fn two_d(rep: &mut Report, rng: &mut Rng, ncases: usize) {
         let qrank = rng.below(3) as usize;
         let qshape: Vec<usize> = (0..qrank).map(|_| rng.range(0, 3) as usize).collect();
         let qn: usize = qshape.iter().product();
-        let qx: Vec<f64> = (0..qn).map(|_| xv[0] + (xv[xv.len() - 1] - xv[0]) * rng.range(0, 8) as f64 / 8.0).collect();
-        let qy: Vec<f64> = (0..qn).map(|_| yv[0] + (yv[yv.len() - 1] - yv[0]) * rng.range(0, 8) as f64 / 8.0).collect();
+        let qx: Vec<f64> = (0..qn).map(|_| (xv[0] + (xv[xv.len() - 1] - xv[0]) * rng.range(0, 8) as f64 / 8.0).min(xv[xv.len() - 1])).collect();
+        let qy: Vec<f64> = (0..qn).map(|_| (yv[0] + (yv[yv.len() - 1] - yv[0]) * rng.range(0, 8) as f64 / 8.0).min(yv[yv.len() - 1])).collect();
         let xs = ArrayD::from_shape_vec(IxDyn(&qshape), qx.clone()).unwrap();
         let ys = ArrayD::from_shape_vec(IxDyn(&qshape), qy.clone()).unwrap();
         let arr = interp.interp_array(&xs, &ys).unwrap();
@@ -544,6 +546,37 @@ fn two_d(rep: &mut Report, rng: &mut Rng, ncases: usize) {
             rep.evaluations += 1;
             rep.count("2d:xy-shape-mismatch");
             if r.is_ok() { rep.fail("2-D: xs and ys of different shapes did not panic", sc.to_json()); }
+            // the *_into variant called directly, with ys larger / smaller than xs on one or every axis,
+            // static and dynamic query dimension: never Ok
+            let mut variants: Vec<(String, Vec<usize>)> = vec![("ys longer on axis 0".into(), other.clone())];
+            let mut all_longer = qshape.clone();
+            for d in all_longer.iter_mut() { *d += 1; }
+            variants.push(("ys longer on every axis".into(), all_longer));
+            let mut last_longer = qshape.clone();
+            *last_longer.last_mut().unwrap() += 1;
+            variants.push(("ys longer on the last axis".into(), last_longer));
+            if qshape[0] >= 1 { let mut sh = qshape.clone(); sh[0] -= 1; variants.push(("ys shorter on axis 0".into(), sh)); }
+            for (label, ysh) in variants {
+                let yn: usize = ysh.iter().product();
+                let ysv = ArrayD::from_shape_vec(IxDyn(&ysh), (0..yn).map(|i| yv[i % yv.len()]).collect()).unwrap();
+                let spec = gen_layout(rng, &good, 0);
+                let mut alloc: Vec<f64> = (0..spec.alloc_len()).map(poison_val).collect();
+                let (view, _o, _st) = make_view(&spec, &mut alloc);
+                let r = catch_unwind(AssertUnwindSafe(|| interp.interp_array_into(&xs, &ysv, view).is_ok()));
+                rep.evaluations += 1;
+                rep.count("2d:xy-shape-mismatch-into");
+                if let Ok(true) = r {
+                    rep.fail(&format!("2-D: interp_array_into returned Ok for xs of shape {:?} and ys of shape {:?} ({})", qshape, ysh, label), sc.to_json());
+                }
+                if qshape.len() == 2 {
+                    let xs2 = xs.clone().into_dimensionality::<Ix2>().unwrap();
+                    let ys2s = ysv.clone().into_dimensionality::<Ix2>().unwrap();
+                    let mut buf = ArrayD::from_elem(IxDyn(&good), 0.0f64);
+                    let r = catch_unwind(AssertUnwindSafe(|| interp.interp_array_into(&xs2, &ys2s, buf.view_mut()).is_ok()));
+                    rep.evaluations += 1;
+                    if let Ok(true) = r { rep.fail(&format!("2-D: interp_array_into (rank-2 query) returned Ok for xs {:?} / ys {:?}", qshape, ysh), sc.to_json()); }
+                }
+            }
         }
     }
 }
@@ -560,7 +593,7 @@ fn input_layouts(rep: &mut Report, rng: &mut Rng, ncases: usize) {
         let ax = gen_axis(rng, n, Spacing::Random, false);
         let qshape: Vec<usize> = (0..rng.below(3)).map(|_| rng.range(1, 3) as usize).collect();
         let qn: usize = qshape.iter().product();
-        let qv: Vec<f64> = (0..qn).map(|_| ax[0] + (ax[n - 1] - ax[0]) * rng.range(0, 32) as f64 / 32.0).collect();
+        let qv: Vec<f64> = (0..qn).map(|_| (ax[0] + (ax[n - 1] - ax[0]) * rng.range(0, 32) as f64 / 32.0).min(ax[n - 1])).collect();
         let data_c = ArrayD::from_shape_vec(IxDyn(&dshape), vals.clone()).unwrap();
         let x_c = Array1::from(ax.clone());
         let q_c = ArrayD::from_shape_vec(IxDyn(&qshape), qv.clone()).unwrap();
@@ -608,8 +641,8 @@ fn query_layouts(rep: &mut Report, rng: &mut Rng, ncases: usize) {
         let (sc, _f, _c) = crate::lin::gen_bilinear_scen(rng, false, false, false);
         let (xv, yv) = (sc.xvals(), sc.yvals());
         let interp = Interp2DBuilder::new(sc.make_data::<f64>()).x(Array1::from(xv.clone())).y(Array1::from(yv.clone())).strategy(Bilinear::new()).build().unwrap();
-        let qx: Vec<f64> = (0..qn).map(|_| xv[0] + (xv[xv.len() - 1] - xv[0]) * rng.range(0, 16) as f64 / 16.0).collect();
-        let qy: Vec<f64> = (0..qn).map(|_| yv[0] + (yv[yv.len() - 1] - yv[0]) * rng.range(0, 16) as f64 / 16.0).collect();
+        let qx: Vec<f64> = (0..qn).map(|_| (xv[0] + (xv[xv.len() - 1] - xv[0]) * rng.range(0, 16) as f64 / 16.0).min(xv[xv.len() - 1])).collect();
+        let qy: Vec<f64> = (0..qn).map(|_| (yv[0] + (yv[yv.len() - 1] - yv[0]) * rng.range(0, 16) as f64 / 16.0).min(yv[yv.len() - 1])).collect();
         let mut reference: Vec<u64> = Vec::new();
         for i in 0..qn { reference.extend(interp.interp(qx[i], qy[i]).unwrap().iter().map(|v| v.to_bits())); }
         let xs_c = ArrayD::from_shape_vec(IxDyn(&qshape), qx.clone()).unwrap();
@@ -643,7 +676,7 @@ fn query_layouts(rep: &mut Report, rng: &mut Rng, ncases: usize) {
         let vals: Vec<f64> = (0..total).map(|_| gen_value(rng, false)).collect();
         let ax = gen_axis(rng, n, Spacing::Random, false);
         let i1 = Interp1DBuilder::new(ArrayD::from_shape_vec(IxDyn(&dshape), vals).unwrap()).x(Array1::from(ax.clone())).build().unwrap();
-        let qv: Vec<f64> = (0..qn).map(|_| ax[0] + (ax[n - 1] - ax[0]) * rng.range(0, 32) as f64 / 32.0).collect();
+        let qv: Vec<f64> = (0..qn).map(|_| (ax[0] + (ax[n - 1] - ax[0]) * rng.range(0, 32) as f64 / 32.0).min(ax[n - 1])).collect();
         let mut ref1: Vec<u64> = Vec::new();
         for q in &qv { ref1.extend(i1.interp(*q).unwrap().iter().map(|v| v.to_bits())); }
         let q_c = ArrayD::from_shape_vec(IxDyn(&qshape), qv.clone()).unwrap();
@@ -658,6 +691,118 @@ fn query_layouts(rep: &mut Report, rng: &mut Rng, ncases: usize) {
             match r {
                 Ok(Ok(bits)) => if bits != ref1 { rep.fail(&format!("1-D: interp_array(q)[i..] differs from interp(q[i..]) for query layout {} (query shape {:?})", sq.label, qshape), J::Null); },
                 other => rep.fail(&format!("1-D: interp_array with query layout {} failed: {:?}", sq.label, other.map(|x| x.is_ok())), J::Null),
+            }
+        }
+    }
+}
+
+/// the strategies' own lane loops under every layout: CubicSpline (1-D) with data / target buffers in every
+/// layout, Bilinear (2-D) with data in every layout; everything bitwise against the owned C-order call
+fn strategy_layouts(rep: &mut Report, rng: &mut Rng, ncases: usize) {
+    for _ in 0..ncases {
+        // ---- CubicSpline ----
+        let n = rng.range(3, 7) as usize;
+        let trail: Vec<usize> = match rng.below(4) { 0 => vec![2], 1 => vec![2, 3], 2 => vec![3, 2], _ => vec![2, 2, 2] };
+        let mut dshape = vec![n];
+        dshape.extend_from_slice(&trail);
+        let total: usize = dshape.iter().product();
+        let vals: Vec<f64> = (0..total).map(|_| gen_value(rng, false)).collect();
+        let ax = gen_axis(rng, n, Spacing::Random, false);
+        let data_c = ArrayD::from_shape_vec(IxDyn(&dshape), vals).unwrap();
+        let x_c = Array1::from(ax.clone());
+        let bc = match rng.below(3) { 0 => BoundaryCondition::Natural, 1 => BoundaryCondition::NotAKnot, _ => BoundaryCondition::Clamped };
+        let qshape: Vec<usize> = match rng.below(3) { 0 => vec![3], 1 => vec![2, 2], _ => vec![] };
+        let qn: usize = qshape.iter().product();
+        let qv: Vec<f64> = (0..qn).map(|_| (ax[0] + (ax[n - 1] - ax[0]) * rng.range(0, 32) as f64 / 32.0).min(ax[n - 1])).collect();
+        let q_c = ArrayD::from_shape_vec(IxDyn(&qshape), qv.clone()).unwrap();
+        let mk = |b: &BoundaryCondition<f64, IxDyn>| match b { BoundaryCondition::Natural => BoundaryCondition::Natural, BoundaryCondition::NotAKnot => BoundaryCondition::NotAKnot, _ => BoundaryCondition::Clamped };
+        let interp_c = Interp1DBuilder::new(data_c.clone()).x(x_c.clone()).strategy(CubicSpline::new().boundary(mk(&bc))).build().unwrap();
+        let reference: Vec<u64> = interp_c.interp_array(&q_c).unwrap().iter().map(|v| v.to_bits()).collect();
+        let mut good = qshape.clone();
+        good.extend_from_slice(&trail);
+        for lk in 1..6u64 {
+            // data in layout lk
+            let spec = gen_layout(rng, &dshape, lk);
+            let mut alloc: Vec<f64> = (0..spec.alloc_len()).map(poison_val).collect();
+            { let (mut view, _, _) = make_view(&spec, &mut alloc); view.assign(&data_c); }
+            let (view, _, _) = make_view(&spec, &mut alloc);
+            let r = catch_unwind(AssertUnwindSafe(|| {
+                Interp1DBuilder::new(view.view()).x(x_c.view()).strategy(CubicSpline::new().boundary(mk(&bc))).build()
+                    .map(|i| i.interp_array(&q_c).map(|a| a.iter().map(|v| v.to_bits()).collect::<Vec<u64>>()))
+            }));
+            rep.evaluations += 1;
+            rep.count(&format!("spline-data-layout:{}", spec.label));
+            match r {
+                Ok(Ok(Ok(bits))) => if bits != reference { rep.fail(&format!("CubicSpline: data layout {} gives results that differ bitwise from owned C-order data (data shape {:?})", spec.label, dshape), J::Null); },
+                other => rep.fail(&format!("CubicSpline: data layout {}: call failed: {:?}", spec.label, other.map(|x| x.map(|y| y.is_ok()).is_ok())), J::Null),
+            }
+            // target buffer in layout lk
+            let bspec = gen_layout(rng, &good, lk);
+            let mut balloc: Vec<f64> = (0..bspec.alloc_len()).map(poison_val).collect();
+            let ok;
+            { let (bview, _, _) = make_view(&bspec, &mut balloc);
+              ok = catch_unwind(AssertUnwindSafe(|| interp_c.interp_array_into(&q_c, bview).is_ok())).unwrap_or(false); }
+            rep.evaluations += 1;
+            rep.count(&format!("spline-buffer-layout:{}", bspec.label));
+            if !ok { rep.fail(&format!("CubicSpline: correctly shaped buffer with layout {} not accepted", bspec.label), J::Null); }
+            else {
+                let (bview, _, _) = make_view(&bspec, &mut balloc);
+                let got: Vec<u64> = bview.iter().map(|v| v.to_bits()).collect();
+                if got != reference { rep.fail(&format!("CubicSpline: interp_array_into with buffer layout {} differs from interp_array (shape {:?})", bspec.label, good), J::Null); }
+            }
+            // interp_into(x, target) with the target in layout lk
+            if !trail.is_empty() {
+                let tspec = gen_layout(rng, &trail, lk);
+                let mut talloc: Vec<f64> = (0..tspec.alloc_len()).map(poison_val).collect();
+                let xq = ax[0] + (ax[n - 1] - ax[0]) * 0.375;
+                let want: Vec<u64> = interp_c.interp(xq).unwrap().iter().map(|v| v.to_bits()).collect();
+                let ok;
+                { let (tview, _, _) = make_view(&tspec, &mut talloc);
+                  ok = catch_unwind(AssertUnwindSafe(|| interp_c.interp_into(xq, tview).is_ok())).unwrap_or(false); }
+                rep.evaluations += 1;
+                if !ok { rep.fail(&format!("CubicSpline: interp_into refused a correctly shaped target with layout {}", tspec.label), J::Null); }
+                else {
+                    let (tview, _, _) = make_view(&tspec, &mut talloc);
+                    let got: Vec<u64> = tview.iter().map(|v| v.to_bits()).collect();
+                    if got != want { rep.fail(&format!("CubicSpline: interp_into with target layout {} differs from interp (trailing shape {:?})", tspec.label, trail), J::Null); }
+                }
+            }
+        }
+        // ---- Bilinear: data (nx, ny, trailing..) in every layout ----
+        let (nx, ny) = (rng.range(2, 5) as usize, rng.range(2, 5) as usize);
+        let trail2: Vec<usize> = match rng.below(3) { 0 => vec![], 1 => vec![3], _ => vec![2, 3] };
+        let mut d2 = vec![nx, ny];
+        d2.extend_from_slice(&trail2);
+        let t2: usize = d2.iter().product();
+        let v2: Vec<f64> = (0..t2).map(|_| gen_value(rng, false)).collect();
+        let data2 = ArrayD::from_shape_vec(IxDyn(&d2), v2).unwrap();
+        let xa = gen_axis(rng, nx, Spacing::Random, false);
+        let ya = gen_axis(rng, ny, Spacing::Random, false);
+        let qs2: Vec<usize> = match rng.below(2) { 0 => vec![3], _ => vec![2, 2] };
+        let qn2: usize = qs2.iter().product();
+        let qx: Vec<f64> = (0..qn2).map(|_| (xa[0] + (xa[nx - 1] - xa[0]) * rng.range(0, 32) as f64 / 32.0).min(xa[nx - 1])).collect();
+        let qy: Vec<f64> = (0..qn2).map(|_| (ya[0] + (ya[ny - 1] - ya[0]) * rng.range(0, 32) as f64 / 32.0).min(ya[ny - 1])).collect();
+        let xs = ArrayD::from_shape_vec(IxDyn(&qs2), qx).unwrap();
+        let ys = ArrayD::from_shape_vec(IxDyn(&qs2), qy).unwrap();
+        let ref2: Vec<u64> = Interp2DBuilder::new(data2.clone()).x(Array1::from(xa.clone())).y(Array1::from(ya.clone())).build().unwrap()
+            .interp_array(&xs, &ys).unwrap().iter().map(|v| v.to_bits()).collect();
+        for lk in 1..6u64 {
+            let spec = gen_layout(rng, &d2, lk);
+            let mut alloc: Vec<f64> = (0..spec.alloc_len()).map(poison_val).collect();
+            { let (mut view, _, _) = make_view(&spec, &mut alloc); view.assign(&data2); }
+            let (view, _, _) = make_view(&spec, &mut alloc);
+            let xarr = Array1::from(xa.clone());
+            let yarr = Array1::from(ya.iter().rev().cloned().collect::<Vec<f64>>());
+            let yview = yarr.slice(ndarray::s![..;-1]);
+            let r = catch_unwind(AssertUnwindSafe(|| {
+                Interp2DBuilder::new(view.view()).x(xarr.view()).y(yview).build()
+                    .map(|i| i.interp_array(&xs, &ys).map(|a| a.iter().map(|v| v.to_bits()).collect::<Vec<u64>>()))
+            }));
+            rep.evaluations += 1;
+            rep.count(&format!("bilinear-data-layout:{}", spec.label));
+            match r {
+                Ok(Ok(Ok(bits))) => if bits != ref2 { rep.fail(&format!("Bilinear: data layout {} (y axis as a reversed view) gives results that differ bitwise from owned C-order data (data shape {:?})", spec.label, d2), J::Null); },
+                other => rep.fail(&format!("Bilinear: data layout {}: call failed: {:?}", spec.label, other.map(|x| x.map(|y| y.is_ok()).is_ok())), J::Null),
             }
         }
     }
